@@ -6,6 +6,9 @@ import (
 	"golang.org/x/tools/go/ssa"
 )
 
+// ReflectT stands for a reflect.Type; only Kind() is modelled.
+type ReflectT struct{ T types.Type }
+
 // ReflectV stands for a reflect.Value; only Kind() is modelled.
 type ReflectV struct{ I Iface }
 
@@ -73,6 +76,9 @@ func init() {
 	rm := map[string]intrinsic{
 		"reflect.ValueOf": func(x *Exec, fr *frame, fn *ssa.Function, a []Value) Value {
 			return ReflectV{x.asIface(a[0])}
+		},
+		"reflect.TypeOf": func(x *Exec, fr *frame, fn *ssa.Function, a []Value) Value {
+			return ReflectT{x.asIface(a[0]).T}
 		},
 		"(reflect.Value).Kind": func(x *Exec, fr *frame, fn *ssa.Function, a []Value) Value {
 			rv, ok := a[0].(ReflectV)
